@@ -58,6 +58,12 @@ func run(c *hlib.Ctx) {
 	for i := 0; i < n/4+1; i++ {
 		kindExt(c)
 	}
+	for i := 0; i < n/2; i++ {
+		kindSparse(c)
+	}
+	for i := 0; i < n/2; i++ {
+		kindCG(c)
+	}
 }
 
 // ---------------------------------------------------------------- grow: the state machine, exactly
@@ -415,8 +421,16 @@ func bSection(x *indexed, m *model3d.CoordMap[model2d.Coord]) string {
 
 // newSetup picks a disc, a boundary map and weights.  exact => dyadic polygon + dyadic weights.
 func newSetup(c *hlib.Ctx, exact bool, maxTris int) *paramSetup {
-	for {
+	return newSetupFrom(c, exact, func() *model3d.Mesh {
 		d, _ := pickDisc(c, maxTris)
+		return d
+	})
+}
+
+// newSetupFrom: the same over the discs `pick` produces.
+func newSetupFrom(c *hlib.Ctx, exact bool, pick func() *model3d.Mesh) *paramSetup {
+	for {
+		d := pick()
 		x := index(d)
 		if x.hasDupTris() {
 			continue
@@ -501,7 +515,16 @@ func pickWeights(c *hlib.Ctx, p *paramSetup, wk int, isBoundary func(model3d.Coo
 // operator with unit vectors, must equal the model's rows exactly (dyadic boundary and weights:
 // every Go operation is exact).
 func kindSystem(c *hlib.Ctx) {
-	p := newSetup(c, true, 160)
+	// the assembly is recorded, nothing is solved: also discs whose exact solution is below the
+	// resolution of the iterative solver (a closed surface minus one triangle)
+	p := newSetupFrom(c, true, func() *model3d.Mesh {
+		if c.Rng.Intn(3) == 0 {
+			d, _ := hubDisc(c, 160, true)
+			return d
+		}
+		d, _ := pickDisc(c, 160)
+		return d
+	})
 	x := p.x
 	rec := &recSolver{}
 	var res *model3d.CoordMap[model2d.Coord]
@@ -529,6 +552,7 @@ func kindSystem(c *hlib.Ctx) {
 	})
 	n := len(rowOf)
 	c.Stat("system-rows", n)
+	c.Stat(rowStat("system", p), 1)
 	unknowns := -1
 	if len(rec.biases) == 2 {
 		unknowns = len(rec.biases[0])
@@ -607,6 +631,7 @@ func emitParam(c *hlib.Ctx, p *paramSetup, stretch bool, iters int) {
 		mode = "stretch"
 	}
 	c.Stat("param:"+mode+":"+p.bdesc+":"+p.wdesc, 1)
+	c.Stat(rowStat("param", p), 1)
 	head := fmt.Sprintf("c18 param %s L %s H %s TOL 1/1000000 T %s %s %s", mode, r(p.lo), r(p.hi), soupStr(x.soup),
 		p.boundarySection(), p.weightSection())
 	if st != "ok" {
@@ -983,6 +1008,12 @@ func kindPack(c *hlib.Ctx) {
 func kindMapFnExact(c *hlib.Ctx) {
 	nx, ny := 1+c.Rng.Intn(4), 1+c.Rng.Intn(4)
 	sx, sy := pow2(c.Rng.Intn(3)-2), pow2(c.Rng.Intn(3)-2)
+	if c.Rng.Intn(3) == 0 {
+		// a finely triangulated chart (or one squeezed into a small atlas cell): legs down to 2^-18,
+		// areas down to 2^-37; still exact: the origin is a multiple of 1/4, all sums fit in 53 bits
+		sx, sy = pow2(-3-c.Rng.Intn(16)), pow2(-3-c.Rng.Intn(16))
+		c.Stat(fmt.Sprintf("mapfn-exact-uv-triangle-area:2^%03d", int(math.Round(math.Log2(sx*sy/2)/8))*8), 1)
+	}
 	ox, oy := dy(c, 1, 2), dy(c, 1, 2)
 	h := make([][]model3d.Coord3D, nx+1)
 	for i := range h {
@@ -1008,6 +1039,20 @@ func kindMapFnExact(c *hlib.Ctx) {
 				add([2]int{i, j}, [2]int{i + 1, j}, [2]int{i, j + 1})
 				add([2]int{i + 1, j}, [2]int{i + 1, j + 1}, [2]int{i, j + 1})
 			}
+		}
+	}
+	if sx < 0.125 || sy < 0.125 {
+		// a second, coarse chart next to the fine one (charts of one atlas differ in scale): a square of
+		// two triangles with legs 1/2, two units to the right
+		q := func(i, j int) model3d.Coord3D {
+			return model3d.XYZ(8+float64(i)+dy(c, 1, 2)/4, float64(j)+dy(c, 1, 2)/4, dy(c, 2, 3))
+		}
+		cq := [2][2]model3d.Coord3D{{q(0, 0), q(0, 1)}, {q(1, 0), q(1, 1)}}
+		cu := func(i, j int) model2d.Coord { return model2d.XY(ox+2+float64(i)/2, oy+float64(j)/2) }
+		for _, tr := range [][3][2]int{{{0, 0}, {1, 0}, {1, 1}}, {{0, 0}, {1, 1}, {0, 1}}} {
+			t := &model3d.Triangle{cq[tr[0][0]][tr[0][1]], cq[tr[1][0]][tr[1][1]], cq[tr[2][0]][tr[2][1]]}
+			uv[t] = [3]model2d.Coord{cu(tr[0][0], tr[0][1]), cu(tr[1][0], tr[1][1]), cu(tr[2][0], tr[2][1])}
+			tris = append(tris, t)
 		}
 	}
 	var fn func(model2d.Coord) (model3d.Coord3D, *model3d.Triangle)
